@@ -75,7 +75,7 @@ pub fn base_module(base: &J) -> Vec<u8> {
         _ => "",
     };
     w += &format!("  (func $f2 {} i32.const 222 drop call $imp)\n", locals);
-    w += "  (memory 1)\n  (global $g0 (mut i32) (i32.const 5))\n  (export \"f1\" (func $f1))\n  (data (i32.const 0) \"base\")\n)\n";
+    w += "  (memory 1)\n  (global $g0 (mut i32) (i32.const 5))\n  (export \"f1\" (func $f1)) (export \"g0\" (global $g0)) (export \"mem0\" (memory 0))\n  (data (i32.const 0) \"base\")\n)\n";
     let mut bytes = wat::parse_str(&w).expect("content base");
     use wasm_encoder::Section;
     for k in 0..base["customs"].as_u64().unwrap_or(0) {
@@ -85,6 +85,26 @@ pub fn base_module(base: &J) -> Vec<u8> {
 }
 
 // ---- decoding to canonical strings -------------------------------------------------------------
+/// constant-expression operators as text with every index replaced by `@`; the indices are returned
+/// separately as (index space, index) so that the trace spec can compare them through the handle map
+fn const_ops(e: &wasmparser::ConstExpr, refs: &mut Vec<J>) -> String {
+    let mut v = vec![];
+    for o in e.get_operators_reader().into_iter().flatten() {
+        match o {
+            wasmparser::Operator::RefFunc { function_index } => {
+                refs.push(json!({"sp":"f","idx":function_index}));
+                v.push("RefFunc@".to_string());
+            }
+            wasmparser::Operator::GlobalGet { global_index } => {
+                refs.push(json!({"sp":"g","idx":global_index}));
+                v.push("GlobalGet@".to_string());
+            }
+            o => v.push(format!("{:?}", o)),
+        }
+    }
+    v.join(";")
+}
+
 pub fn decode(bytes: &[u8]) -> Result<J, String> {
     let mut types: Vec<String> = vec![];
     let mut ftypes: Vec<(Vec<String>, Vec<String>)> = vec![];
@@ -93,6 +113,8 @@ pub fn decode(bytes: &[u8]) -> Result<J, String> {
     let mut globals = vec![];
     let mut mems = vec![];
     let mut imports = vec![];
+    let mut impmems: Vec<String> = vec![];
+    let mut impglobals: Vec<String> = vec![];
     let mut data = vec![];
     let mut exports = vec![];
     let mut customs = vec![];
@@ -118,8 +140,11 @@ pub fn decode(bytes: &[u8]) -> Result<J, String> {
             ImportSection(r) => {
                 for i in r {
                     let i = i.map_err(|e| e.to_string())?;
-                    if let wasmparser::TypeRef::Func(_) = i.ty {
-                        nimp += 1;
+                    match i.ty {
+                        wasmparser::TypeRef::Func(_) => nimp += 1,
+                        wasmparser::TypeRef::Memory(m) => impmems.push(format!("{:?}", m)),
+                        wasmparser::TypeRef::Global(g) => impglobals.push(format!("{:?}", g)),
+                        _ => {}
                     }
                     imports.push(format!("{}.{} {:?}", i.module, i.name, i.ty));
                 }
@@ -132,8 +157,9 @@ pub fn decode(bytes: &[u8]) -> Result<J, String> {
             GlobalSection(r) => {
                 for g in r {
                     let g = g.map_err(|e| e.to_string())?;
-                    let ops: Vec<String> = g.init_expr.get_operators_reader().into_iter().flatten().map(|o| format!("{:?}", o)).collect();
-                    globals.push(format!("{:?} init={}", g.ty, ops.join(";")));
+                    let mut refs = vec![];
+                    let ops = const_ops(&g.init_expr, &mut refs);
+                    globals.push(json!({"s":format!("{:?} init={}", g.ty, ops),"refs":refs}));
                 }
             }
             MemorySection(r) => {
@@ -150,14 +176,16 @@ pub fn decode(bytes: &[u8]) -> Result<J, String> {
             DataSection(r) => {
                 for d in r {
                     let d = d.map_err(|e| e.to_string())?;
+                    let mut refs = vec![];
                     let k = match &d.kind {
                         wasmparser::DataKind::Passive => "passive".to_string(),
                         wasmparser::DataKind::Active { memory_index, offset_expr } => {
-                            let ops: Vec<String> = offset_expr.get_operators_reader().into_iter().flatten().map(|o| format!("{:?}", o)).collect();
-                            format!("active mem={} off={}", memory_index, ops.join(";"))
+                            refs.push(json!({"sp":"m","idx":memory_index}));
+                            let ops = const_ops(offset_expr, &mut refs);
+                            format!("active mem=@ off={}", ops)
                         }
                     };
-                    data.push(format!("{} bytes={}", k, hex(d.data)));
+                    data.push(json!({"s":format!("{} bytes={}", k, hex(d.data)),"refs":refs}));
                 }
             }
             CodeSectionEntry(b) => {
@@ -193,7 +221,7 @@ pub fn decode(bytes: &[u8]) -> Result<J, String> {
         funcs.push(json!({"params":ps,"results":rs,"locals":b["locals"],"body":b["body"],
             "name":fnames.get(&((nimp + i) as u32)).cloned().unwrap_or_default(),"index":nimp + i}));
     }
-    Ok(json!({"types":types,"funcs":funcs,"globals":globals,"mems":mems,"data":data,"exports":exports,"customs":customs,"imports":imports,"nimp":nimp}))
+    Ok(json!({"types":types,"funcs":funcs,"globals":globals,"mems":mems,"data":data,"exports":exports,"customs":customs,"imports":imports,"nimp":nimp,"impmems":impmems,"impglobals":impglobals}))
 }
 
 // ---- reference encodings of requests --------------------------------------------------------------
@@ -252,13 +280,13 @@ fn init_expr(init: &J) -> InitExpr {
         _ => InitInstr::RefNull(wasmparser::RefType::FUNCREF),
     }])
 }
-fn ref_global(op: &J) -> String {
+fn ref_global(op: &J) -> J {
     use wasm_encoder::*;
     let mut gs = GlobalSection::new();
     gs.global(GlobalType { val_type: vt(op["ty"].as_str().unwrap()), mutable: op["mut"].as_bool().unwrap_or(false), shared: op["shared"].as_bool().unwrap_or(false) }, &const_expr(&op["init"]));
     let mut m = Module::new();
     m.section(&gs);
-    decode(&m.finish()).map(|d| d["globals"][0].as_str().unwrap().to_string()).unwrap_or_else(|e| e)
+    decode(&m.finish()).map(|d| d["globals"][0].clone()).unwrap_or_else(|e| json!({"s":e,"refs":[]}))
 }
 fn mem_ty(op: &J) -> wasmparser::MemoryType {
     wasmparser::MemoryType {
@@ -278,7 +306,7 @@ fn ref_memory(op: &J) -> String {
     m.section(&ms);
     decode(&m.finish()).map(|d| d["mems"][0].as_str().unwrap().to_string()).unwrap_or_else(|e| e)
 }
-fn ref_data(op: &J) -> String {
+fn ref_data(op: &J) -> J {
     use wasm_encoder::*;
     let mut ds = DataSection::new();
     let bytes = unhex(op["bytes"].as_str().unwrap());
@@ -289,7 +317,7 @@ fn ref_data(op: &J) -> String {
     }
     let mut m = Module::new();
     m.section(&ds);
-    decode(&m.finish()).map(|d| d["data"][0].as_str().unwrap().to_string()).unwrap_or_else(|e| e)
+    decode(&m.finish()).map(|d| d["data"][0].clone()).unwrap_or_else(|e| json!({"s":e,"refs":[]}))
 }
 
 /// apply the named body op through the opcode helpers
@@ -318,6 +346,21 @@ fn body_op<'a, T: Opcode<'a>>(t: &mut T, name: &str) {
         }
         "unreachable" => {
             t.unreachable();
+        }
+        "block" => {
+            t.block(wirm::ir::types::BlockType::Empty);
+        }
+        "loop" => {
+            t.loop_stmt(wirm::ir::types::BlockType::Empty);
+        }
+        "if" => {
+            t.if_stmt(wirm::ir::types::BlockType::Empty);
+        }
+        "else" => {
+            t.else_stmt();
+        }
+        "end" => {
+            t.end();
         }
         x => panic!("body op {}", x),
     }
@@ -399,6 +442,11 @@ fn run_case(case: &J) -> J {
                 module.exports.add_export_func(ename.clone(), id, None);
                 json!({"id":id,"lids":lids,"export":ename})
             }
+            "conv" => {
+                // local function f (1-based) becomes an import of type 0 (func)
+                let f = op["f"].as_u64().unwrap() as u32;
+                json!(module.convert_local_fn_to_import(FunctionID(nimp + f - 1), "env".to_string(), "conv".to_string(), TypeID(0)))
+            }
             "add_type" => {
                 let id = match op["kind"].as_str().unwrap() {
                     "func" => {
@@ -454,6 +502,14 @@ fn run_case(case: &J) -> J {
                 } else {
                     json!(*module.add_local_memory(t))
                 }
+            }
+            "add_iglobal" => {
+                let (id, _) = module.add_imported_global("added".into(), format!("g{}", op["n"].as_u64().unwrap_or(0)), dt(op["ty"].as_str().unwrap()), op["mut"].as_bool().unwrap_or(false), false);
+                json!(*id)
+            }
+            "add_ifunc" => {
+                let (id, _) = module.add_import_func("added".into(), format!("f{}", op["n"].as_u64().unwrap_or(0)), TypeID(0));
+                json!(*id)
             }
             "add_export" => {
                 let nm = format!("x{}", op["n"].as_u64().unwrap_or(0));
@@ -511,6 +567,9 @@ fn run_case(case: &J) -> J {
                 rec["req"] = json!(ref_global(&o));
             }
             "add_memory" => rec["req"] = json!(ref_memory(&op)),
+            "add_iglobal" => {
+                rec["req"] = json!(format!("{:?}", wasmparser::GlobalType { content_type: wasmparser::ValType::from(&dt(op["ty"].as_str().unwrap())), mutable: op["mut"].as_bool().unwrap_or(false), shared: false }));
+            }
             "add_data" => rec["req"] = json!(ref_data(&op)),
             _ => {}
         }
